@@ -129,6 +129,9 @@ DC_SPECS = {
     # class-level rename style together with a field that has aliases (the Python name stays an input name of that field)
     'dc_renalias': dict(name='DcRenalias', opts={'rename': 'camel'},
                         fields=[_f('max_retries', 'int', aliases=['retries']), _f('colour_name', 'str', ['value', "'red'"])]),
+    # a field that is neither written nor compared (so neither hashed): instances that differ in it only are the same set member
+    'dc_hidden': dict(name='DcHidden', opts={},
+                      fields=[_f('a', 'int'), _f('note', 'str', ['value', "'n'"], exclude=True, compare=False)]),
     # an output name that is not an input name: read under the Python name only
     'dc_outname': dict(name='DcOutname', opts={},
                        fields=[_f('size', 'int', out_name='len'), _f('note', 'str', ['value', "'n'"])]),
@@ -671,6 +674,8 @@ def expressions(tier: str) -> t.List[t.Any]:
             for e in (['list', u], ['tuplevar', u], ['dict', 'str', u], ['deque', u], ['tuple', u, 'int'], ['struct', ['k', u]],
                       ['optional', u], ['list', ['list', u]]):
                 add(e)
+    for e in (['set', 'dc_hidden'], ['frozenset', 'dc_hidden'], ['dict', 'dc_hidden', 'int'], ['list', ['set', 'dc_hidden']]):
+        add(e)
     # alternatives whose own descriptions coincide ("tuple of length 2") but which fail at different places
     for e in (['union', ['tuple', 'int', 'str'], ['tuple', 'str', 'int']], ['union', ['tuple', 'int', 'int'], ['tuple', 'str', 'str']],
               ['list', ['union', ['tuple', 'int', 'str'], ['tuple', 'str', 'int']]],
